@@ -80,6 +80,7 @@ type ExtRouterData struct {
 
 var (
 	errMaxOutEthernetLength = errors.New("the ethernet length is greater than 1500")
+	errExtRouterDataLength  = errors.New("the extended router data length is invalid")
 )
 
 func (fs *FlowSample) unmarshal(r io.ReadSeeker) error {
@@ -181,6 +182,11 @@ func (es *ExtSwitchData) unmarshal(r io.Reader) error {
 
 func (er *ExtRouterData) unmarshal(r io.Reader, l uint32) error {
 	var err error
+
+	// next hop address type, an address of up to 16 bytes and two masks
+	if l < 12 || l > 28 {
+		return errExtRouterDataLength
+	}
 
 	buff := make([]byte, l-8)
 	if err = read(r, &buff); err != nil {
